@@ -274,7 +274,8 @@ int main(int argc, char **argv)
             stall->stallThread = std::this_thread::get_id();
             logger.flush();
         });
-        while (!stall->entered.load())
+        // (a walk that never gets to the last sink is not waited for: what matters is what the files hold in the end)
+        for (int i = 0; i < 3000 && !stall->entered.load(); ++i)
             std::this_thread::sleep_for(std::chrono::milliseconds(1));
         bg.detach();
     }
